@@ -95,11 +95,29 @@ func (m *Machine) Assert(c *Term, label string) {
 // decide runs the final query PC ∧ extra through the portfolio. Each back end gets the form that suits it:
 // the Int-lowered pure bit-vector form for the bit-blasters, the mixed Int/BV form for cvc5's integer lifting.
 func (m *Machine) decide(extra *Term) (Result, map[string]*big.Int) {
-	build := func(low bool) ([]*Term, []*Term) {
+	build := func(form int) ([]*Term, []*Term) {
+		low := form == 1
 		asserts := make([]*Term, 0, len(m.pc)+1)
+		var lf *Lifter
+		if form == 2 {
+			// a lifter of its own for this query: interval facts learnt from THIS path condition let it drop
+			// `mod 2^w` wherever no wrap-around is possible
+			lf = NewLifter(m.TT)
+			for _, c := range m.pc {
+				lf.Learn(c)
+			}
+		}
 		f := func(t *Term) *Term {
-			if low {
+			switch form {
+			case 1:
 				return m.lowerTerm(t)
+			case 2:
+				r, ok := lf.Lift(t)
+				if !ok {
+					m.liftFailed = true
+					return m.TT.True
+				}
+				return r
 			}
 			return t
 		}
@@ -112,6 +130,8 @@ func (m *Machine) decide(extra *Term) (Result, map[string]*big.Int) {
 			if n.term != nil {
 				if low {
 					want = append(want, m.wantTermLow(n.term))
+				} else if form == 2 && n.term.S.K == SBV && n.term.Op == OSym {
+					want = append(want, m.TT.Sym(liftName(n.term.Name, n.term.S.W), IntSort))
 				} else {
 					want = append(want, n.term)
 				}
@@ -123,7 +143,11 @@ func (m *Machine) decide(extra *Term) (Result, map[string]*big.Int) {
 	var model map[string]*big.Int
 	run := func(i int, needModel bool) (Result, map[string]*big.Int) {
 		s := m.extra[i]
-		asserts, want := build(m.extraLow[i])
+		m.liftFailed = false
+		asserts, want := build(m.extraForm[i])
+		if m.extraForm[i] == 2 && m.liftFailed {
+			return Unknown, nil // some constraint has no integer form: this back end cannot decide the query
+		}
 		if !needModel {
 			want = nil
 		}
@@ -159,7 +183,7 @@ func (m *Machine) decide(extra *Term) (Result, map[string]*big.Int) {
 	}
 	if res == Unknown && os.Getenv("GOSMT_DUMP") != "" {
 		for i, s := range m.extra {
-			asserts, _ := build(m.extraLow[i])
+			asserts, _ := build(m.extraForm[i])
 			f, err := os.Create(fmt.Sprintf("%s/unknown-%d-%s.smt2", os.Getenv("GOSMT_DUMP"), m.Sh.Stats.Obligations, s.B.Name))
 			if err == nil {
 				sv := s.Log
@@ -405,6 +429,14 @@ func (m *Machine) modelValue(model map[string]*big.Int, t *Term) *big.Int {
 			if v.Bit(b) == 1 {
 				return new(big.Int).Sub(v, new(big.Int).Lsh(big.NewInt(1), uint(b+1)))
 			}
+			return v
+		}
+	}
+	if v, ok := model[t.Name]; ok {
+		return v
+	}
+	if t.S.K == SBV {
+		if v, ok := model[liftName(t.Name, t.S.W)]; ok {
 			return v
 		}
 	}
